@@ -14,7 +14,12 @@ import (
 
 // c14Name returns an arbitrary proto field name and an arbitrary (independent) JSON
 // name: json_name may be set explicitly, so the two are unrelated in general.
+var c14Concrete bool // scanners over the trace want concrete text
+
 func c14Name(id string) (string, string) {
+	if c14Concrete {
+		return "f_" + strings.ReplaceAll(id, ".", "_"), "j" + strings.ReplaceAll(id, ".", "")
+	}
 	return verif.Seg(id+".name", 3), verif.Seg(id+".json", 3)
 }
 
@@ -43,7 +48,10 @@ func c14File(feature int, withService bool) (*protogen.File, string) {
 		verif.AddField(m, &verif.FieldDesc{FName: n2, FJSON: j2, FKind: protoreflect.Uint64Kind, FList: true, FNumber: 2, FOpts: num2}, "F2")
 		suffix = "_encoding.pb.go"
 	case 1: // enum with partially annotated custom values
-		custom := verif.Seg("enum.custom", 3)
+		custom := "red"
+		if !c14Concrete {
+			custom = verif.Seg("enum.custom", 3)
+		}
 		verif.SetExt(w.enum.Values[1].Desc.Options().(*descriptorpb.EnumValueOptions), http.E_EnumValue, custom)
 		n1, j1 := c14Name("f1")
 		f := verif.AddField(m, &verif.FieldDesc{FName: n1, FJSON: j1, FKind: protoreflect.EnumKind, FNumber: 1, FOpts: c14Opts(nil), FEnum: w.enum.Desc}, "F1")
@@ -80,7 +88,10 @@ func c14File(feature int, withService bool) (*protogen.File, string) {
 		suffix = "_bytes_encoding.pb.go"
 	case 6: // flatten with prefix
 		n1, j1 := c14Name("f1")
-		prefix := verif.StringIn("prefix", 2, "a-z_")
+		prefix := "p_"
+		if !c14Concrete {
+			prefix = verif.StringIn("prefix", 2, "a-z_")
+		}
 		f := verif.AddField(m, &verif.FieldDesc{FName: n1, FJSON: j1, FKind: protoreflect.MessageKind, FNumber: 1, FMsg: w.child.Desc,
 			FOpts: c14Opts(func(o *descriptorpb.FieldOptions) {
 				verif.SetExt(o, http.E_Flatten, true)
@@ -101,7 +112,10 @@ func c14File(feature int, withService bool) (*protogen.File, string) {
 		n1, j1 := c14Name("v1")
 		n2, j2 := c14Name("v2")
 		verif.Assume(n1 != n2 && j1 != j2)
-		disc := verif.Seg("discriminator", 3)
+		disc := "kind"
+		if !c14Concrete {
+			disc = verif.Seg("discriminator", 3)
+		}
 		flatten := verif.Bool("oneof.flatten")
 		oo := &protogen.Oneof{Desc: &verif.OneofDesc{OName: "content", OOpts: &descriptorpb.OneofOptions{}}, GoName: "Content", Parent: m}
 		verif.SetExt(oo.Desc.Options().(*descriptorpb.OneofOptions), http.E_OneofConfig, &http.OneofConfig{Discriminator: disc, Flatten: flatten})
@@ -109,7 +123,10 @@ func c14File(feature int, withService bool) (*protogen.File, string) {
 		verif.AddField(text, &verif.FieldDesc{FName: "body", FJSON: "body", FKind: protoreflect.StringKind, FNumber: 1, FOpts: c14Opts(nil)}, "Body")
 		image := verif.NewMessage("acme.v1", "Image")
 		verif.AddField(image, &verif.FieldDesc{FName: "url", FJSON: "url", FKind: protoreflect.StringKind, FNumber: 1, FOpts: c14Opts(nil)}, "Url")
-		customVal := verif.StringIn("v1.oneofValue", 3, "a-z")
+		customVal := "txt"
+		if !c14Concrete {
+			customVal = verif.StringIn("v1.oneofValue", 3, "a-z")
+		}
 		v1 := verif.AddField(m, &verif.FieldDesc{FName: n1, FJSON: j1, FKind: protoreflect.MessageKind, FNumber: 1, FMsg: text.Desc, FOneof: oo.Desc,
 			FOpts: c14Opts(func(o *descriptorpb.FieldOptions) {
 				if customVal != "" {
